@@ -13,6 +13,7 @@
     roundtrip_value        every `OwnedValuePath` with ≥ 1 segment
     roundtrip_event        every event target path, the root `.` included
     roundtrip_metadata     every metadata target path with ≥ 1 segment
+    roundtrip_bytes_partial   the same for every byte-view `Path` whose fields are valid UTF-8
     roundtrip_partial      the three above as one statement over `C20.Kind`, hypothesis = complement
                            of the finding classes `rtClass`; the full statement (no hypothesis) is
                            false of the code: `OwnedValuePath::root()` ↦ "" and
@@ -107,6 +108,38 @@ theorem roundtrip_partial (k : Kind) (p : CPath) (hr : p.inRange = true)
         intro h; subst h; simp [rtClass, CPath.toPath] at hclass
       have ⟨h1, h2⟩ := roundtrip_metadata p hne hr
       exact ⟨_, h1, by simp [roundTripHolds, parseKind, h2, ofTResult, expected]⟩
+
+theorem inRange_of_pathInRange (cp : CPath) (h : pathInRange cp.toPath = true) :
+    cp.inRange = true := by
+  induction cp with
+  | nil => rfl
+  | cons s r ih =>
+    simp only [pathInRange, CPath.toPath, List.map_cons, List.all_cons, Bool.and_eq_true] at h
+    have ih' := ih (by simpa [pathInRange, CPath.toPath] using h.2)
+    cases s with
+    | field cs => simpa [CPath.inRange, CSeg.inRange] using ih'
+    | index i =>
+      have hi : inIsize i = true := by simpa [CSeg.toSeg] using h.1
+      simp only [CPath.inRange, List.all_cons, Bool.and_eq_true]
+      exact ⟨hi, ih'⟩
+
+/-- (1) on the byte view: for every `Path` (fields = UTF-8 byte strings as stored in `KeyString`,
+    indices in `isize`) outside the finding classes, whatever `render` produces parses back to
+    exactly that path. Uses both directions of the UTF-8 correspondence. -/
+theorem roundtrip_bytes_partial (k : Kind) (p : Path) (t : List Char)
+    (hr : pathInRange p = true) (hclass : rtClass k p = .none)
+    (hrender : renderKind k p = some t) : roundTripHolds k p (parseKind k t) = true := by
+  have hc : ∃ cp, Path.toC p = some cp := by
+    cases h : Path.toC p with
+    | some cp => exact ⟨cp, rfl⟩
+    | none => cases k <;> simp [renderKind, render, renderTarget, h] at hrender
+  obtain ⟨cp, hcp⟩ := hc
+  have hp := toPath_of_toC p cp hcp
+  subst hp
+  obtain ⟨t', h1, h2⟩ := roundtrip_partial k cp (inRange_of_pathInRange cp hr) hclass
+  rw [hrender] at h1
+  cases h1
+  exact h2
 
 /-! ### `Display for OwnedSegment` -/
 
